@@ -76,39 +76,39 @@ Qed.
 
 (** ** runs *)
 Section Runs.
-  Variables pc ks : bool.
+  Variables pc ks ke : bool.
   Variable p : proto.
 
   Lemma run_from_app s ls1 ls2 :
-    run_from pc ks p s (ls1 ++ ls2) =
-    let (s1, o1) := run_from pc ks p s ls1 in
-    let (s2, o2) := run_from pc ks p s1 ls2 in (s2, o1 ++ o2).
+    run_from pc ks ke p s (ls1 ++ ls2) =
+    let (s1, o1) := run_from pc ks ke p s ls1 in
+    let (s2, o2) := run_from pc ks ke p s1 ls2 in (s2, o1 ++ o2).
   Proof.
     revert s. induction ls1 as [|l ls1 IH]; intro s; simpl.
-    - destruct (run_from pc ks p s ls2); reflexivity.
-    - destruct (step pc ks p s l) as [s1 o]. rewrite IH.
-      destruct (run_from pc ks p s1 ls1) as [s2 os]. destruct (run_from pc ks p s2 ls2). reflexivity.
+    - destruct (run_from pc ks ke p s ls2); reflexivity.
+    - destruct (step pc ks ke p s l) as [s1 o]. rewrite IH.
+      destruct (run_from pc ks ke p s1 ls1) as [s2 os]. destruct (run_from pc ks ke p s2 ls2). reflexivity.
   Qed.
 
   (** reachable (state, trace) pairs *)
   Inductive reach : st -> list ev -> Prop :=
   | reach_init : reach init_st []
-  | reach_step s t l s' o : reach s t -> step pc ks p s l = (s', o) -> reach s' (t ++ o).
+  | reach_step s t l s' o : reach s t -> step pc ks ke p s l = (s', o) -> reach s' (t ++ o).
 
   Lemma final_snoc ls l :
-    final pc ks p (ls ++ [l]) = fst (step pc ks p (final pc ks p ls) l).
+    final pc ks ke p (ls ++ [l]) = fst (step pc ks ke p (final pc ks ke p ls) l).
   Proof.
-    unfold final, run. rewrite run_from_app. destruct (run_from pc ks p init_st ls) as [s1 o1]. simpl.
-    destruct (step pc ks p s1 l). reflexivity.
+    unfold final, run. rewrite run_from_app. destruct (run_from pc ks ke p init_st ls) as [s1 o1]. simpl.
+    destruct (step pc ks ke p s1 l). reflexivity.
   Qed.
   Lemma trace_snoc ls l :
-    trace pc ks p (ls ++ [l]) = trace pc ks p ls ++ snd (step pc ks p (final pc ks p ls) l).
+    trace pc ks ke p (ls ++ [l]) = trace pc ks ke p ls ++ snd (step pc ks ke p (final pc ks ke p ls) l).
   Proof.
-    unfold trace, final, run. rewrite run_from_app. destruct (run_from pc ks p init_st ls) as [s1 o1]. simpl.
-    destruct (step pc ks p s1 l). simpl. rewrite concat_app. simpl. now rewrite app_nil_r.
+    unfold trace, final, run. rewrite run_from_app. destruct (run_from pc ks ke p init_st ls) as [s1 o1]. simpl.
+    destruct (step pc ks ke p s1 l). simpl. rewrite concat_app. simpl. now rewrite app_nil_r.
   Qed.
 
-  Lemma run_reach ls : reach (final pc ks p ls) (trace pc ks p ls).
+  Lemma run_reach ls : reach (final pc ks ke p ls) (trace pc ks ke p ls).
   Proof.
     induction ls as [|l ls IH] using rev_ind.
     - apply reach_init.
@@ -116,10 +116,10 @@ Section Runs.
   Qed.
 
   Lemma trace_app ls1 ls2 :
-    exists rest, trace pc ks p (ls1 ++ ls2) = trace pc ks p ls1 ++ rest.
+    exists rest, trace pc ks ke p (ls1 ++ ls2) = trace pc ks ke p ls1 ++ rest.
   Proof.
-    unfold trace, run. rewrite run_from_app. destruct (run_from pc ks p init_st ls1) as [s1 o1].
-    destruct (run_from pc ks p s1 ls2) as [s2 o2]. simpl. rewrite concat_app. eauto.
+    unfold trace, run. rewrite run_from_app. destruct (run_from pc ks ke p init_st ls1) as [s1 o1].
+    destruct (run_from pc ks ke p s1 ls2) as [s2 o2]. simpl. rewrite concat_app. eauto.
   Qed.
 End Runs.
 
@@ -289,7 +289,7 @@ Proof.
   assert (Ho : silent n o) by (intros x Hx; apply H; now right).
   specialize (IH Ho). change (e :: o) with ([e] ++ o). rewrite view_app, IH, vplus_zero_r.
   unfold view, vzero, count, owned. simpl.
-  destruct e as [f|f [m|]|b|m i d|m|m|m|m|m|z| |]; simpl in *; try reflexivity;
+  destruct e as [f|f [m|]|b|m i d|m|m|m|m|m|z| | |]; simpl in *; try reflexivity;
     destruct (Nat.eqb m n) eqn:E; try reflexivity; apply Nat.eqb_eq in E; subst; congruence.
 Qed.
 
@@ -958,7 +958,7 @@ Lemma count_none P o : (forall e, In e o -> P e = false) -> count P o = 0.
 Proof. intro H. now apply count_zero_iff. Qed.
 
 Section Main2.
-  Variables pc ks : bool.
+  Variables pc ks ke : bool.
   Variable p : proto.
 
   Lemma emit_src_out n l r o : emit_src n l = (r, o) ->
@@ -1004,13 +1004,13 @@ Section Main2.
         change (VStart (clock s) id DSubFail :: ?x) with ([VStart (clock s) id DSubFail] ++ x); rewrite !count_app, ?C, ?D; reflexivity.
   Qed.
 
-  Theorem reach_inv s t : reach pc ks p s t -> Inv s t /\ CloseInv s t.
+  Theorem reach_inv s t : reach pc ks ke p s t -> Inv s t /\ CloseInv s t.
   Proof.
     induction 1 as [|s t l s' o R [I C] St].
     - split.
       + constructor; simpl; try (intros; contradiction); try constructor.
       + split; simpl; [auto|discriminate].
-    - unfold step in St. destruct (react pc ks p s l) as [s1 o1] eqn:Re. injection St as <- <-.
+    - unfold step in St. destruct (react pc ks ke p s l) as [s1 o1] eqn:Re. injection St as <- <-.
       unfold Inv. change (clock (tick s1)) with (S (clock s1)). change (subs (tick s1)) with (subs s1).
       change (srcs (tick s1)) with (srcs s1).
       assert (CI : closed (tick s1) = closed s1 /\ registered (tick s1) = registered s1) by (split; reflexivity).
@@ -1024,7 +1024,7 @@ Section Main2.
                      (closed s1 = true -> registered s1 = false /\ subs s1 = [] /\ count is_gone (t ++ o') = 1 /\ count is_dereg (t ++ o') = 1 /\
                         existsb is_dereg (live_part (t ++ o')) = false /\ forallb after_gone_ok (after_gone (t ++ o')) = true)).
       { intros o' A B X Y. split; [intros _; rewrite !count_app, G0, D0, X, Y; auto|congruence]. }
-      destruct l as [f|n|n|e].
+      destruct l as [f|n|n|e|].
       + (* a client frame *)
         destruct (handle pc ks p s f) as [s2 o2] eqn:H. injection Re as <- <-.
         assert (I' : InvC (clock s) (subs s) (srcs s) (t ++ [VRecv f])).
@@ -1084,6 +1084,17 @@ Section Main2.
           -- rewrite live_part_nogone by exact G3. simpl. rewrite app_nil_r.
              rewrite existsb_count, count_app, D0, D2. reflexivity.
           -- rewrite after_gone_nogone by exact G3. simpl. rewrite forallb_app, X1. reflexivity.
+      + (* a keep-alive tick *)
+        injection Re as <- <-.
+        assert (N : forall e0, In e0 (VTick :: match p with
+                                               | PWs => if did_init s || ke then [VSend SKa None] else []
+                                               | PTws => [VSend SPong None] end) ->
+                    ev_op e0 = None /\ is_gone e0 = false /\ is_dereg e0 = false).
+        { intros e0 [<-|He]; [auto|]. destruct p; [destruct (did_init s || ke)|]; simpl in He; try contradiction;
+            destruct He as [<-|[]]; auto. }
+        split.
+        * apply (inv_weaken (clock s)); [|lia]. apply inv_neutral; [exact I|]. intros e0 He. now apply N.
+        * apply Keep; auto; apply count_none; intros e0 He; now apply N.
   Qed.
 End Main2.
 
@@ -1160,7 +1171,7 @@ Proof.
       destruct P as [P|P]; [assert (0 < count (is_stop n) t)|assert (0 < count (is_srcend n) t)]; try lia;
         apply count_pos_iff; eauto.
     - destruct (i_src _ _ _ _ I x Hx) as (_ & _ & V). unfold view in V. rewrite Ex in V. injection V as _ _ E3 _ _ _ _. lia. }
-  destruct e as [f|f [k|]|b|n id d|n|n|n|n|n|z| |]; simpl; auto;
+  destruct e as [f|f [k|]|b|n id d|n|n|n|n|n|z| | |]; simpl; auto;
     try (apply Own; reflexivity); try (apply Src; [reflexivity|simpl; rewrite Nat.eqb_refl; auto]).
   - (* owned frame *) destruct f; try (apply Own; reflexivity);
       apply (proj1 (forallb_forall _ _) WO) in He; discriminate.
@@ -1342,7 +1353,7 @@ Lemma chk_acks_app t : forall k o, chk_acks k t = true -> chk_acks 0 o = true ->
 Proof.
   induction t as [|e t IH]; intros k o H Ho; simpl in *.
   - apply Nat.eqb_eq in H. now subst.
-  - destruct e as [f|f ow|b|n i d|n|n|n|n|n|z| |]; auto.
+  - destruct e as [f|f ow|b|n i d|n|n|n|n|n|z| | |]; auto.
     + destruct f; auto. destruct k; [discriminate|auto].
     + destruct b; auto.
 Qed.
@@ -1356,25 +1367,25 @@ Qed.
 Lemma opish_acks o : forallb opish o = true -> chk_acks 0 o = true.
 Proof.
   induction o as [|e o IH]; simpl; [reflexivity|]. intro H. apply andb_true_iff in H as [H1 H2].
-  destruct e as [f|f ow|b|n i d|n|n|n|n|n|z| |]; simpl in H1; try discriminate; auto.
+  destruct e as [f|f ow|b|n i d|n|n|n|n|n|z| | |]; simpl in H1; try discriminate; auto.
   destruct f; try discriminate; auto.
 Qed.
 Lemma opish_pongs p o : forallb opish o = true -> chk_pongs p 0 o = true.
 Proof.
   induction o as [|e o IH]; simpl; [reflexivity|]. intro H. apply andb_true_iff in H as [H1 H2].
-  destruct e as [f|f ow|b|n i d|n|n|n|n|n|z| |]; simpl in H1; try discriminate;
+  destruct e as [f|f ow|b|n i d|n|n|n|n|n|z| | |]; simpl in H1; try discriminate;
     try (destruct p; simpl; auto; fail).
   destruct f; try discriminate; destruct p; simpl; auto.
 Qed.
 Lemma opish_wo o : forallb opish o = true -> forallb well_owned o = true.
 Proof.
   intro H. apply forallb_forall. intros e He. apply (proj1 (forallb_forall _ _) H) in He.
-  destruct e as [f|f [k|]|b|n i d|n|n|n|n|n|z| |]; simpl in *; try discriminate; auto; destruct f; try discriminate; auto.
+  destruct e as [f|f [k|]|b|n i d|n|n|n|n|n|z| | |]; simpl in *; try discriminate; auto; destruct f; try discriminate; auto.
 Qed.
 Lemma opish_op o : forallb opish o = true -> forallb is_op_event o = true.
 Proof.
   intro H. apply forallb_forall. intros e He. apply (proj1 (forallb_forall _ _) H) in He.
-  destruct e as [f|f [k|]|b|n i d|n|n|n|n|n|z| |]; simpl in *; try discriminate; auto; destruct f; try discriminate; auto.
+  destruct e as [f|f [k|]|b|n i d|n|n|n|n|n|z| | |]; simpl in *; try discriminate; auto; destruct f; try discriminate; auto.
 Qed.
 Lemma chk_ack_first_after p a b : chk_ack_first p a = true -> In SAck a -> chk_ack_first p (a ++ b) = true.
 Proof.
@@ -1391,14 +1402,14 @@ Definition is_ack_ev (e : ev) : bool := match e with VSend SAck _ => true | _ =>
 Lemma chk_noop_after a b : chk_no_op_before_ack a = true -> existsb is_ack_ev a = true -> chk_no_op_before_ack (a ++ b) = true.
 Proof.
   induction a as [|e a IH]; simpl; [discriminate|]. intros H X.
-  destruct e as [f|f ow|bb|n i d|n|n|n|n|n|z| |]; simpl in *; try discriminate; auto.
+  destruct e as [f|f ow|bb|n i d|n|n|n|n|n|z| | |]; simpl in *; try discriminate; auto.
   destruct f; simpl in *; try discriminate; auto.
 Qed.
 Lemma chk_noop_before a b : forallb (fun e => negb (is_op_event e) && negb (is_ack_ev e)) a = true ->
   chk_no_op_before_ack (a ++ b) = chk_no_op_before_ack b.
 Proof.
   induction a as [|e a IH]; simpl; [reflexivity|]. intro H. apply andb_true_iff in H as [H1 H2].
-  destruct e as [f|f ow|bb|n i d|n|n|n|n|n|z| |]; simpl in *; try discriminate; auto.
+  destruct e as [f|f ow|bb|n i d|n|n|n|n|n|z| | |]; simpl in *; try discriminate; auto.
   destruct f; simpl in *; try discriminate; auto.
 Qed.
 
@@ -1427,7 +1438,7 @@ Section Conn.
 
   (** what one step appends, reduced to the four facts the connection-level rules need *)
   Lemma step_conn s l s' o :
-    step false ks p s l = (s', o) ->
+    step false ks false p s l = (s', o) ->
     forallb well_owned o = true /\ chk_acks 0 o = true /\ chk_pongs p 0 o = true /\
     (if did_init s then
        did_init s' = true
@@ -1441,11 +1452,11 @@ Section Conn.
           forallb (pre_ack_ok p) (frames o) = true /\
           forallb (fun e => negb (is_op_event e) && negb (is_ack_ev e)) o = true /\ srcs s' = [] /\ subs s' = [])).
   Proof.
-    unfold step. destruct (react false ks p s l) as [s1 o1] eqn:Re. intro H. injection H as <- <-.
+    unfold step. destruct (react false ks false p s l) as [s1 o1] eqn:Re. intro H. injection H as <- <-.
     change (did_init (tick s1)) with (did_init s1). change (subs (tick s1)) with (subs s1). change (srcs (tick s1)) with (srcs s1).
     unfold react in Re. destruct (closed s).
     { injection Re as <- <-. repeat split; auto. destruct (did_init s); auto. }
-    destruct l as [f|n|n|e].
+    destruct l as [f|n|n|e|].
     - destruct (handle false ks p s f) as [s2 o2] eqn:H. injection Re as <- <-.
       destruct (handle_shape _ _ _ _ _ _ _ H) as [A B C D E|A B C D E|bc A B C D E F|A B C D E|id d A B C|id A B C].
       + (* quiet *)
@@ -1511,9 +1522,13 @@ Section Conn.
         apply (chk_pongs_app p o3); [now apply opish_pongs|destruct p; reflexivity]. }
       destruct (did_init s); [reflexivity|]. intros S1 S2. rewrite S1, S2 in SA. simpl in SA. injection SA as <- <-.
       destruct A7 as [->| ->]; auto.
+    - (* a keep-alive tick: a pong (graphql-transport-ws), a ka only after an accepted init (graphql-ws) *)
+      injection Re as <- <-.
+      destruct p; destruct (did_init s) eqn:DI; simpl;
+        (split; [reflexivity|split; [reflexivity|split; [reflexivity|]]]); try reflexivity; intros S1 S2; auto.
   Qed.
 
-  Theorem reach_conn s t : reach false ks p s t -> ConnInv p s t.
+  Theorem reach_conn s t : reach false ks false p s t -> ConnInv p s t.
   Proof.
     induction 1 as [|s t l s' o R [W A P K] St].
     - constructor; try reflexivity. unfold AckInv. simpl. auto.
@@ -1531,16 +1546,17 @@ Section Conn.
         * destruct K as (K1 & K2 & K3 & K4). destruct (did_init s').
           -- assert (S' : subs s' = []).
              { (* the step that accepts an init does not touch the map *)
-               unfold step in St. destruct (react false ks p s l) as [s1 o1] eqn:Re. injection St as <- <-.
+               unfold step in St. destruct (react false ks false p s l) as [s1 o1] eqn:Re. injection St as <- <-.
                change (subs (tick s1)) with (subs s1). clear K'.
                revert Re. unfold react. destruct (closed s); [intro X; injection X as <- <-; exact K4|].
-               destruct l as [f|n|n|e].
+               destruct l as [f|n|n|e|].
                - destruct (handle false ks p s f) as [s2 o2] eqn:H. intro X. injection X as <- <-.
                  destruct (handle_shape _ _ _ _ _ _ _ H) as [? B ? ? ?|? B ? ? ?|bc ? B ? ? ? ?|? B ? ? ?|id d A0 B ?|id A0 B ?]; congruence.
                - destruct (emit_src n (srcs s)). intro X. injection X as <- <-. exact K4.
                - destruct (end_src n (srcs s)). intro X. injection X as <- <-. exact K4.
                - destruct (begin_closing (end_code e) s) as [s2 o2]. unfold handle_close.
-                 destruct (stop_all (subs s2) (srcs s2)). intro X. injection X as <- <-. reflexivity. }
+                 destruct (stop_all (subs s2) (srcs s2)). intro X. injection X as <- <-. reflexivity.
+               - intro X. injection X as <- <-. exact K4. }
              destruct (K' S') as (pre & post & -> & Q1 & Q2 & Q3 & Q4).
              rewrite !frames_app. repeat split.
              ++ apply in_or_app. right. apply in_or_app. right. simpl. now left.
@@ -1574,7 +1590,7 @@ Qed.
 Lemma ign_chk a t : IgnInv t -> chk_ignored a t = true.
 Proof.
   intro I. unfold chk_ignored. apply chk_ignored_from_spec. intros t1 e t2 id Et Ig. simpl.
-  unfold ignored_start in Ig. destruct e as [f|f ow|b|n i d|n|n|n|n|n|z| |]; try discriminate.
+  unfold ignored_start in Ig. destruct e as [f|f ow|b|n i d|n|n|n|n|n|z| | |]; try discriminate.
   destruct (is_sublike d) eqn:Sl; [|discriminate]. destruct (served n t) eqn:Sv; [discriminate|].
   simpl in Ig. injection Ig as ->.
   destruct (I t1 _ t2 n id d Et eq_refl Sl) as [B|S]; [exact B|congruence].
@@ -1587,7 +1603,7 @@ Lemma complete_of_owned k t :
   existsb (is_complete_of k) t = existsb (fun f => match f with SComplete _ => true | _ => false end) (owned k t).
 Proof.
   induction t as [|e t IH]; [reflexivity|]. simpl. unfold owned in *. simpl. rewrite existsb_app, <- IH.
-  f_equal. destruct e as [f|f [m|]|b|n i d|n|n|n|n|n|z| |]; simpl; try reflexivity.
+  f_equal. destruct e as [f|f [m|]|b|n i d|n|n|n|n|n|z| | |]; simpl; try reflexivity.
   - destruct (Nat.eqb m k); destruct f; reflexivity.
   - destruct f; reflexivity.
 Qed.
@@ -1685,16 +1701,16 @@ Section Ign.
   Variable p : proto.
 
   Lemma step_starts s t l s' o :
-    Inv s t -> step false false p s l = (s', o) ->
+    Inv s t -> step false false false p s l = (s', o) ->
     (forall e n i d, In e o -> e <> VStart n i d) \/
     (exists f id d o', o = VRecv f :: VStart (clock s) id d :: o' /\
        (forall e n i d', In e o' -> e <> VStart n i d') /\
        (is_sublike d = true -> served (clock s) o' = true \/ busy id (t ++ [VRecv f]) = true)).
   Proof.
-    intros I St. unfold step in St. destruct (react false false p s l) as [s1 o1] eqn:Re. injection St as _ <-.
+    intros I St. unfold step in St. destruct (react false false false p s l) as [s1 o1] eqn:Re. injection St as _ <-.
     unfold react in Re. destruct (closed s).
     { injection Re as _ <-. left. intros e n i d []. }
-    destruct l as [f|n|n|e].
+    destruct l as [f|n|n|e|].
     - destruct (handle false false p s f) as [s2 o2] eqn:H. injection Re as _ <-.
       destruct (handle_shape _ _ _ _ _ _ _ H) as [A B C D E|A B C D E|bc A B C D E F|A B C D E|id d A B C|id A B C].
       + left. intros e n i d [<-|He]; [discriminate|]. destruct D as [->|(c & ->)]; [destruct He|].
@@ -1723,13 +1739,15 @@ Section Ign.
       + discriminate.
       + apply in_app_or in He as [He|[He|[]]]; [|discriminate].
         apply (proj1 (forallb_forall _ _) X1) in He. discriminate.
+    - injection Re as _ <-. left. intros e n i d [<-|He]; [discriminate|].
+      destruct p; [destruct (did_init s || false)|]; simpl in He; try contradiction; destruct He as [<-|[]]; discriminate.
   Qed.
 
-  Theorem reach_ign s t : reach false false p s t -> IgnInv t.
+  Theorem reach_ign s t : reach false false false p s t -> IgnInv t.
   Proof.
     induction 1 as [|s t l s' o R IH St].
     - intros pre e post n id d H. destruct pre; discriminate.
-    - pose proof (reach_inv _ _ _ _ _ R) as [I _].
+    - pose proof (reach_inv _ _ _ _ _ _ R) as [I _].
       intros pre e post n id d H -> Sl.
       destruct (app_split _ _ _ _ _ H) as [(post' & Et & ->)|(o_pre & -> & Eo)].
       + destruct (IH _ _ _ n id d Et eq_refl Sl) as [B|S]; [now left|]. right. rewrite served_app, S. reflexivity.
@@ -1757,28 +1775,28 @@ Section Verdict.
       + rewrite <- (app_nil_r t). now rewrite chk_noop_before.
   Qed.
 
-  Theorem ack_first_all ls : chk_ack_first p (frames (trace false false p ls)) = true.
-  Proof. destruct (reach_conn false p _ _ (run_reach false false p ls)) as [_ _ _ K]. now apply ackinv_first in K. Qed.
-  Theorem no_op_before_ack_all ls : chk_no_op_before_ack (trace false false p ls) = true.
-  Proof. destruct (reach_conn false p _ _ (run_reach false false p ls)) as [_ _ _ K]. now apply ackinv_first in K. Qed.
-  Theorem acks_all ls : chk_acks 0 (trace false false p ls) = true.
-  Proof. now destruct (reach_conn false p _ _ (run_reach false false p ls)). Qed.
-  Theorem pongs_all ls : chk_pongs p 0 (trace false false p ls) = true.
-  Proof. now destruct (reach_conn false p _ _ (run_reach false false p ls)). Qed.
-  Theorem ops_all ls : chk_ops (trace false false p ls) = true.
+  Theorem ack_first_all ls : chk_ack_first p (frames (trace false false false p ls)) = true.
+  Proof. destruct (reach_conn false p _ _ (run_reach false false false p ls)) as [_ _ _ K]. now apply ackinv_first in K. Qed.
+  Theorem no_op_before_ack_all ls : chk_no_op_before_ack (trace false false false p ls) = true.
+  Proof. destruct (reach_conn false p _ _ (run_reach false false false p ls)) as [_ _ _ K]. now apply ackinv_first in K. Qed.
+  Theorem acks_all ls : chk_acks 0 (trace false false false p ls) = true.
+  Proof. now destruct (reach_conn false p _ _ (run_reach false false false p ls)). Qed.
+  Theorem pongs_all ls : chk_pongs p 0 (trace false false false p ls) = true.
+  Proof. now destruct (reach_conn false p _ _ (run_reach false false false p ls)). Qed.
+  Theorem ops_all ls : chk_ops (trace false false false p ls) = true.
   Proof.
-    destruct (reach_inv _ _ _ _ _ (run_reach false false p ls)) as [I _].
-    destruct (reach_conn false p _ _ (run_reach false false p ls)) as [W _ _ _].
+    destruct (reach_inv _ _ _ _ _ _ (run_reach false false false p ls)) as [I _].
+    destruct (reach_conn false p _ _ (run_reach false false false p ls)) as [W _ _ _].
     eapply inv_chk_ops; eauto.
   Qed.
-  Theorem ignored_all a ls : chk_ignored a (trace false false p ls) = true.
+  Theorem ignored_all a ls : chk_ignored a (trace false false false p ls) = true.
   Proof. apply ign_chk. eapply reach_ign. apply run_reach. Qed.
-  Theorem stops_all ls : chk_stops (trace false false p ls) = true.
-  Proof. destruct (reach_inv _ _ _ _ _ (run_reach false false p ls)) as [I C]. eapply inv_chk_stops; eauto. Qed.
-  Theorem dereg_all ls : chk_dereg (trace false false p ls) = true.
-  Proof. destruct (reach_inv _ _ _ _ _ (run_reach false false p ls)) as [I C]. eapply inv_chk_dereg; eauto. Qed.
+  Theorem stops_all ls : chk_stops (trace false false false p ls) = true.
+  Proof. destruct (reach_inv _ _ _ _ _ _ (run_reach false false false p ls)) as [I C]. eapply inv_chk_stops; eauto. Qed.
+  Theorem dereg_all ls : chk_dereg (trace false false false p ls) = true.
+  Proof. destruct (reach_inv _ _ _ _ _ _ (run_reach false false false p ls)) as [I C]. eapply inv_chk_dereg; eauto. Qed.
 
-  Theorem model_meets_spec ls : spec_verdict p (trace false false p ls) = None.
+  Theorem model_meets_spec ls : spec_verdict p (trace false false false p ls) = None.
   Proof.
     unfold spec_verdict.
     rewrite ack_first_all, no_op_before_ack_all, acks_all, pongs_all, ops_all, !ignored_all, stops_all, dereg_all.
